@@ -202,13 +202,17 @@ func Open(kind, dir string) (*Backend, error) {
 		// the committed image is what the inner database holds after the cache was flushed into it
 		return &Backend{Kind: kind, DB: db, Snapshot: func() Image { return Dump(inner) }, Close: func() {},
 			Committed: func() Image { return Image(inner.VerifCommitted()) }}, nil
-	case "bolt":
+	case "bolt", "cachebolt":
 		path := filepath.Join(dir, "chain.db")
 		bdb, err := bbolt.Open(path, 0o600, &bbolt.Options{NoSync: true, NoFreelistSync: true})
 		if err != nil {
 			return nil, err
 		}
-		db := coreutils.NewBoltChainDB(bdb)
+		bolt := coreutils.NewBoltChainDB(bdb)
+		var db chain.DB = bolt
+		if kind == "cachebolt" {
+			db = chain.NewCacheDB(bolt) // the write cache over a real Bolt file
+		}
 		n := 0
 		snap := func() Image {
 			// copy the file as committed (never the live handle), open the copy read-only
@@ -237,7 +241,7 @@ func Open(kind, dir string) (*Backend, error) {
 			})
 			return img
 		}
-		return &Backend{Kind: kind, DB: db, Snapshot: snap, Close: func() { db.Close() },
+		return &Backend{Kind: kind, DB: db, Snapshot: snap, Close: func() { bolt.Close() },
 			CopyFile: func(dst string) error { return copyFile(path, dst) }}, nil
 	}
 	return nil, fmt.Errorf("unknown backend %q", kind)
